@@ -101,6 +101,8 @@ pub fn dispatch(n: usize, df: Df, pre: &[u8], ri: usize, srw: &Srw, maxcalls: us
         7 => rf_line::<7>(df, pre, ri, srw, maxcalls, w),
         8 => rf_line::<8>(df, pre, ri, srw, maxcalls, w),
         16 => rf_line::<16>(df, pre, ri, srw, maxcalls, w),
+        33 => rf_line::<33>(df, pre, ri, srw, maxcalls, w),
+        48 => rf_line::<48>(df, pre, ri, srw, maxcalls, w),
         64 => rf_line::<64>(df, pre, ri, srw, maxcalls, w),
         _ => false,
     }
@@ -156,7 +158,7 @@ pub fn run(mode: &str, thorough: bool, seed: u64, w: &mut impl std::io::Write) {
     let mut rng = Rng(seed ^ 0x2f);
     let cases = if thorough { 60000 } else { 6000 };
     for _ in 0..cases {
-        let size = [2usize, 3, 4, 5, 6, 8, 16, 64][rng.below(8)];
+        let size = [2usize, 3, 4, 5, 6, 8, 16, 64, 16, 64][rng.below(10)];
         let df = if rng.chance(1, 6) { [Df::RejectX, Df::Reject][rng.below(2)] } else { ALL_DF[rng.below(3)] };
         let pl = rng.below(size.min(6) + 1);
         let mut pre = rng.bytes(pl, b"ab\r\n\0x");
@@ -166,7 +168,7 @@ pub fn run(mode: &str, thorough: bool, seed: u64, w: &mut impl std::io::Write) {
         let ri = if pl > 1 { rng.below(pl) } else { 0 };
         let sl = rng.below(if size >= 16 { 120 } else { 14 });
         let p = 2 + rng.below(8);
-        let mut data = rng.bytes(sl, b"abcdefgh");
+        let mut data = rng.bytes(sl, b"abcdefgh\x80\xff\x7f");
         for x in data.iter_mut() {
             if rng.chance(1, p) {
                 *x = [b'\n', b'\r', 0, b'\n', b'x'][rng.below(5)];
@@ -187,7 +189,52 @@ pub fn run(mode: &str, thorough: bool, seed: u64, w: &mut impl std::io::Write) {
             n += 1;
         }
     }
-    eprintln!("STAT rf mode={} scenarios={} exhaustive_stream_len={} alphabet=4 sizes={:?}", mode, n, if errors { maxlen - 1 } else { maxlen }, sizes);
+    // long frames: frame lengths around the buffer size, chunk sizes around 8 / SIZE, bytes incl. >= 0x80
+    let lcases = if thorough { 20000 } else { 2500 };
+    for _ in 0..lcases {
+        let size = [16usize, 33, 48, 64][rng.below(4)];
+        let df = [Df::Line, Df::Crlf, Df::Null, Df::Line][rng.below(4)];
+        let term: &[u8] = match df { Df::Crlf => b"\r\n", Df::Null => b"\0", _ => b"\n" };
+        let nf = 1 + rng.below(4);
+        let mut data: Vec<u8> = vec![];
+        for _ in 0..nf {
+            let fl = match rng.below(8) {
+                0 => 0,
+                1 => 1 + rng.below(3),
+                2 => size / 2,
+                3 => size - term.len(),          // exactly fills the buffer
+                4 => size - term.len() + 1,      // one too long
+                _ => size.saturating_sub(10) + rng.below(10).min(size),
+            };
+            for i in 0..fl {
+                data.push([b'a', 0x80, 0xff, b'\r', 0x01, 0x7f][(i + rng.below(2)) % 6]);
+            }
+            // the byte right before the terminator: values one off the terminator bytes and their high-bit twins
+            if fl > 0 && rng.chance(2, 3) {
+                let k = data.len() - 1;
+                data[k] = [0x0bu8, 0x09, 0x01, 0x0c, 0x0e, 0x8a, 0x8d, b'\r', 0xff][rng.below(9)];
+            }
+            data.extend_from_slice(term);
+        }
+        if rng.chance(1, 3) {
+            let cut = rng.below(data.len() + 1);
+            data.truncate(cut);
+        }
+        let nc = rng.below(10);
+        let mut racts: Vec<RAct> = (0..nc).map(|_| RAct::Data([1usize, 7, 8, 9, size - 1, size, size + 5, 1000][rng.below(8)], rng.chance(1, 10))).collect();
+        if errors && !racts.is_empty() {
+            let pos = rng.below(racts.len() + 1);
+            racts.insert(pos, if rng.chance(1, 6) { RAct::Panic } else { RAct::Err([2u8, 3, 4, 5, 6][rng.below(5)]) });
+        }
+        let pl = rng.below(9);
+        let pre: Vec<u8> = (0..pl).map(|i| b'p' + i as u8).collect();
+        let ri = if pl > 1 { rng.below(pl) } else { 0 };
+        let srw = mk(1, &data, racts);
+        if dispatch(size, df, &pre, ri, &srw, 40, w) {
+            n += 1;
+        }
+    }
+    eprintln!("STAT rf mode={} scenarios={} exhaustive_stream_len={} alphabet=4 sizes={:?} long_frame_scenarios={}", mode, n, if errors { maxlen - 1 } else { maxlen }, sizes, lcases);
 }
 
 pub fn replay_line(l: &str, w: &mut impl std::io::Write) -> bool {
